@@ -1898,6 +1898,12 @@ def call_value(I_, f, args, kws, st, ctx, k, node=None):
     return instantiate(I_, f, args, kws, st, ctx, k, node)
   if isinstance(f, (types.WrapperDescriptorType, types.MethodDescriptorType)):
     return builtin_unbound(I_, f, list(args), kws, st, ctx, k, node)
+  if isinstance(f, Ref):
+    ho = st.obj(f)
+    if ho is not None and ho.kind == "obj":
+      m = I_.class_lookup(ho.cls, "__call__")
+      if isinstance(m, types.FunctionType):
+        return call_value(I_, m, [f] + list(args), kws, st, ctx, k, node)
   from .builtins_model import call_builtin
   return call_builtin(I_, f, args, kws, st, ctx, k, node)
 
